@@ -8,7 +8,8 @@ history, under all knob values and fault kinds.
 """
 import copy as _copy
 
-from sim import core, e1, e1prop, monitor
+from sim import core, e1, e1prop, e1run, e2, e2w, e2prop, e3, monitor
+from sim.containers import parts, meta_of
 from sim.core import yastn
 
 PROP = "C02"
@@ -31,6 +32,21 @@ def budget(tier):
 
 
 def after_op(w, task, rec, outs):
+    # containers (MPS/MPO, PEPS, environments): every tensor they hold, after every op that returned or modified them in place
+    slots = list(rec["out"]) + ([rec["in"][0]] if e1.OPS[rec["op"]].inplace and rec["in"] else [])
+    for s in slots:
+        v = task.slots.get(s)
+        if v is None or isinstance(v, yastn.Tensor) or meta_of(v) is None:
+            continue
+        for name, x in sorted(parts(v).items()):
+            what = "op %d %s %s: tensor %s of the %s in slot %d" % (rec["id"], rec["op"], {k: a for k, a in rec["args"].items() if k in ("kind", "to", "fn")}, name, type(v).__name__, s)
+            try:
+                monitor.check_tensor(x, PROP, what)
+            except core.Violation as vio:
+                vio.where.update({"op": rec["op"], "kind": str(rec["args"].get("kind"))})
+                raise
+            w.stats["tensors_monitored"] += 1
+            w.stats["container_tensors_monitored"] += 1
     for q, s in enumerate(rec["out"]):
         x = task.slots[s]
         if not isinstance(x, yastn.Tensor):
@@ -49,10 +65,45 @@ def after_op(w, task, rec, outs):
         w.stats["tensors_monitored"] += 1
 
 
+W_E2 = {"m_random_mps": 3, "m_random_mpo": 2, "m_product_mps": 1, "m_product_mpo": 1, "m_generate_mpo": 2, "m_from_tensor": 1, "m_add": 2, "m_scal": 1, "m_matmul": 2,
+        "m_unary": 2, "m_inplace": 5, "m_zipper": 1.5, "m_compression": 1, "m_dmrg_start": 0.7, "m_dmrg_step": 2, "m_tdvp_start": 0.5, "m_tdvp_step": 1.5}
+W_E3 = {"p_init": 1.2, "p_prepare": 0.8, "p_gate": 5, "p_copy": 0.7, "p_add": 1.5, "p_env": 2, "p_evolve": 2, "p_measure": 1}
+
+
+def build_container(seed, tier, kind):
+    if kind == "E2":
+        return e2prop.build(seed, tier, PROP, W_E2, nops=(8, 14), Nmax=5, Nmin=2, p_disturbed=0.6)
+    rng = core.stream(seed, "programs")
+    swarm = core.stream(seed, "swarm")
+    fam = rng.choice(["SpinlessFermions", "SpinlessFermions", "Spin12", "SpinfulFermions"])
+    dims = list(rng.choice([(1, 2), (2, 1), (2, 2), (2, 2), (1, 3), (3, 1)] + ([(2, 3), (3, 2)] if fam != "SpinfulFermions" else [])))
+    arm = "disturbed" if swarm.random() < 0.6 else "baseline"
+    cfg = {"family": fam, "sym": rng.choice(e3.FAMILIES3[fam]), "dims": dims, "tree": min(dims) == 1,
+           "tensordot_policy": swarm.choice(e1run.POLICIES) if arm == "disturbed" else "fuse_to_matrix", "default_fusion": "hard"}
+    spec = {"id": 0, "engine": "E3", "config": cfg, "universe": [], "tags": {}}
+    prog, digs, t = e1run.generate_cold(seed, spec, rng, swarm.randint(7, 12), dict(W_E3), seed_ops=("p_init",), cache_impl="real")
+    ts = dict(spec)
+    ts["program"] = prog
+    world = {"cache_impl": "real", "maxsize": "default", "lapack": True, "fc": {}}
+    if arm == "disturbed":
+        world = {"cache_impl": swarm.choice(["real", "instrumented"]), "maxsize": swarm.choice(["default", 0, 1, 2, 8]), "lapack": True,
+                 "fc": {"p_lookup": swarm.choice([0.0, 0.02, 0.05]), "lookup_kinds": ["evict", "clear_table", "clear_all", "resize"], "p_lapack": swarm.choice([0.0, 0.2, 0.5])}}
+    return {"format": 1, "property": PROP, "engine": "E3", "arm": arm, "seed": seed, "world": world, "tasks": [ts],
+            "schedule": [["op", 0, r["id"]] for r in prog], "inner": {}, "mode": "draw", "rejected": getattr(t, "rejected", [])}
+
+
 def run_seed(seed, tier):
-    case = e1prop.build(seed, tier, PROP, WEIGHTS, nops=(10, 22), p_disturbed=0.7)
+    kind = core.stream(seed, "object-world").choice(["E1", "E1", "E1", "E1", "E2", "E2", "E3"])
+    if kind == "E1":
+        case = e1prop.build(seed, tier, PROP, WEIGHTS, nops=(10, 22), p_disturbed=0.7)
+    else:
+        case = build_container(seed, tier, kind)
     v, w, info = e1prop.simulate(case, True, after_op, None)
-    return e1prop.result(case, v, w, info, seed)
+    if kind != "E1":
+        info["checked_outputs"] = max(info["checked_outputs"], w.stats.get("container_tensors_monitored", 0))
+    r = e1prop.result(case, v, w, info, seed)
+    r["world_kind"] = kind
+    return r
 
 
 def replay(case):
@@ -60,4 +111,10 @@ def replay(case):
     return v
 
 
-extra_evidence = e1prop.extra_evidence
+def extra_evidence(results):
+    out = e1prop.extra_evidence(results)
+    kinds = {}
+    for r in results:
+        kinds[r.get("world_kind", "E1")] = kinds.get(r.get("world_kind", "E1"), 0) + 1
+    out["runs_by_object_world"] = {"tensors (E1)": kinds.get("E1", 0), "MPS/MPO incl. dmrg_/tdvp_ steps (E2)": kinds.get("E2", 0), "PEPS and environments (E3)": kinds.get("E3", 0)}
+    return out
